@@ -10,7 +10,7 @@ from . import _validators
 from . import c03
 
 LEVEL = "other"
-RULES = ("C16.R2", "C16.R3", "C16.R4")
+RULES = ("C16.R2", "C16.R3", "C16.R4", "C16.R6")
 
 
 def run(tier):
@@ -45,11 +45,24 @@ def run(tier):
     res.obligations += r5.obligations
     res.discharged += r5.discharged
     extend(res, facts)
+    # R7: the key a validator is registered (and later invoked) under is the claim's get_key(): every constructor of the typed claims -
+    # in particular the Default placeholders documented for validate_claim - builds the claim under its registered key (C14.R1's table)
+    from . import c14
+    r7 = Result("C14", "other")
+    c14.key_table(r7, facts)
+    for v in r7.violations:
+        res.violate("C16.R7", v.where, v.construct, v.msg + " - a validator registered through this claim would be stored and called under another key", file=v.file, line=v.line)
+    for d in r7.instances.get("C14.R1", []):
+        res.inst("C16.R7", d)
+    res.obligations += r7.obligations
+    res.discharged += r7.discharged
+    res.floor("C16.R7", 15)
     res.floor("C16.R1", 16)
     res.floor("C16.R2", 2)
     res.floor("C16.R3", 2)
     res.floor("C16.R4", 6)
     res.floor("C16.R5", 2)
+    res.floor("C16.R6", 1)
     res.explanation = ("CFG dominance: verify_claims (the only place a validator is invoked) runs only after the success edge of the core decrypt/verify in the 8 generic parse methods, on its Ok value; inside verify_claims every iteration "
                        "consults the validator table, a registered validator is called with (key, &json[key]) of the authenticated payload, its Result goes through `?`, an iteration completes only through its success edge; "
                        "validators without expected claim are visited by a second loop; registration inserts (claim key, closure) with HashMap::insert")
